@@ -1,8 +1,254 @@
+/-
+C04 driver — one request line = one operation *sequence* over a pool of handles.
+
+  C04 <op> ; <op> ; …           answer:  <result>|<state> ; <result>|<state> ; …
+
+Slots are numbered in creation order and never reused.  `<state>` lists every live slot as
+`k:start:len:hex` (hex = the denoted bits packed MSB-first, zero padded to a nibble), i.e. the
+abstraction function `bits` applied to every live handle after every operation.
+
+ops (HEX `-` = empty):
+  new HEX | static HEX | empty | hexstr TEXTHEX | binstr TEXTHEX | fromint V N be|le
+  | fromf32 HEX o | fromf64 HEX o | clone i | drop i
+  | read i n | peek i n | seek i pos | substr i a b | split i k
+  | detach i | invert i | append i j | insert i k j
+  | eq i j | uint i o | int i o | hex i | bytes i | pad i | bytestr i | slice i | iter8 i | bits i
+  | f32 i o | f64 i o | flags i
+A panic ends the sequence (`panic`).
+-/
+import XehModel.Model.Bitstr
 import XehModel.Driver.Codec
 
 namespace Xeh.Driver.C04
+open Xeh Xeh.Bits Xeh.Bitstr
 
-/-- stub: not modelled yet -/
-def handle (_args : List String) : String := "unsupported"
+structure St where
+  heap : Heap
+  pool : Array (Option Handle)
+
+def packHex (bits : List Bool) : String :=
+  let rec go (l : List Bool) (fuel : Nat) (acc : List Char) : List Char :=
+    match fuel, l with
+    | 0, _ => acc.reverse
+    | _, [] => acc.reverse
+    | fuel + 1, l =>
+      let g := l.take 4
+      let g := g ++ List.replicate (4 - g.length) false
+      go (l.drop 4) fuel (hexDigit (beVal g) :: acc)
+  String.ofList (go bits (bits.length + 1) [])
+
+def showState (st : St) : String :=
+  let items := (List.range st.pool.size).filterMap fun k =>
+    match st.pool[k]? with
+    | some (some s) => some s!"{k}:{s.start}:{s.end_ - s.start}:{packHex (bits st.heap s)}"
+    | _ => none
+  ",".intercalate items
+
+def parseHexBytes (s : String) : Option (List Nat) :=
+  if s == "-" then some [] else
+  let rec go : List Char → List Nat → Option (List Nat)
+    | [], acc => some acc.reverse
+    | [_], _ => none
+    | a :: b :: r, acc => do
+      let x ← Codec.hexVal a; let y ← Codec.hexVal b
+      go r ((x * 16 + y) :: acc)
+  go s.toList []
+
+def parseText (s : String) : Option (List Char) :=
+  if s == "-" then some [] else Codec.hexToStr s.toList
+
+def parseOrder : String → Option Byteorder
+  | "be" => some .big
+  | "le" => some .little
+  | _ => none
+
+def hexBytes (bs : List Nat) : String :=
+  if bs.isEmpty then "-" else String.ofList (bs.flatMap Codec.hexByte)
+
+def get (st : St) (tok : String) : Option (Nat × Handle) := do
+  let i ← tok.toNat?
+  match st.pool[i]? with
+  | some (some s) => some (i, s)
+  | _ => none
+
+def push (st : St) (h : Heap) (s : Handle) : St × String :=
+  ({ heap := h, pool := st.pool.push (some s) }, s!"+{st.pool.size}")
+
+def optBytes : Outcome (Option (List Nat)) → Option String
+  | .ok none => some "none"
+  | .ok (some b) => some (hexBytes b)
+  | _ => some "panic"
+
+/-- run one op: `none` = malformed request, result text `panic` = the operation panics -/
+def step (st : St) (op : List String) : Option (St × String) :=
+  let h := st.heap
+  match op with
+  | ["new", hx] => do
+    let bs ← parseHexBytes hx
+    let (h', s) := fromVec h bs
+    some (push st h' s)
+  | ["static", hx] => do
+    let bs ← parseHexBytes hx
+    let (h', s) := fromStatic h bs
+    some (push st h' s)
+  | ["empty"] =>
+    let (h', s) := Bitstr.new h
+    some (push st h' s)
+  | ["hexstr", t] => do
+    let cs ← parseText t
+    match fromHexStr h cs with
+    | .ok (h', s) => some (push st h' s)
+    | .error p => some (st, s!"err:{p}")
+  | ["binstr", t] => do
+    let cs ← parseText t
+    match fromBinStr h cs with
+    | .ok (h', s) => some (push st h' s)
+    | .error p => some (st, s!"err:{p}")
+  | ["fromint", v, n, o] => do
+    let v ← v.toInt?; let n ← n.toNat?; let o ← parseOrder o
+    let (h', s) := fromInt h v n o
+    some (push st h' s)
+  | ["fromf32", hx, o] => do
+    let v ← Codec.natOfHex hx.toList; let o ← parseOrder o
+    let (h', s) := fromF32 h v o
+    some (push st h' s)
+  | ["fromf64", hx, o] => do
+    let v ← Codec.natOfHex hx.toList; let o ← parseOrder o
+    let (h', s) := fromF64 h v o
+    some (push st h' s)
+  | ["clone", i] => do
+    let (_, s) ← get st i
+    let (h', s') := clone h s
+    some (push st h' s')
+  | ["drop", i] => do
+    let (k, s) ← get st i
+    some ({ heap := drop h s, pool := st.pool.set! k none }, "ok")
+  | ["read", i, n] => do
+    let (k, s) ← get st i; let n ← n.toNat?
+    match read h s n with
+    | (h', s', some r) => some (push { heap := h', pool := st.pool.set! k (some s') } h' r)
+    | (_, _, none) => some (st, "none")
+  | ["peek", i, n] => do
+    let (_, s) ← get st i; let n ← n.toNat?
+    match peek h s n with
+    | (h', some r) => some (push st h' r)
+    | (_, none) => some (st, "none")
+  | ["seek", i, n] => do
+    let (_, s) ← get st i; let n ← n.toNat?
+    match seek h s n with
+    | (h', some r) => some (push st h' r)
+    | (_, none) => some (st, "none")
+  | ["substr", i, a, b] => do
+    let (_, s) ← get st i; let a ← a.toNat?; let b ← b.toNat?
+    match substr h s a b with
+    | (h', some r) => some (push st h' r)
+    | (_, none) => some (st, "none")
+  | ["split", i, n] => do
+    let (_, s) ← get st i; let n ← n.toNat?
+    match splitAt h s n with
+    | (h', some (l, r)) =>
+      let (st1, a) := push st h' l
+      let (st2, b) := push st1 h' r
+      some (st2, a ++ b)
+    | (_, none) => some (st, "none")
+  | ["detach", i] => do
+    let (k, s) ← get st i
+    match detach h s with
+    | .ok (h', s') => some ({ heap := h', pool := st.pool.set! k (some s') }, "ok")
+    | _ => some (st, "panic")
+  | ["invert", i] => do
+    let (k, s) ← get st i
+    match invert h s with
+    | .ok (h', s') => some ({ heap := h', pool := st.pool.set! k (some s') }, "ok")
+    | _ => some (st, "panic")
+  | ["append", i, j] => do
+    let (k, s) ← get st i; let (_, t) ← get st j
+    match append h s t with
+    | .ok (h', s') => some ({ heap := h', pool := st.pool.set! k (some s') }, "ok")
+    | _ => some (st, "panic")
+  | ["insert", i, n, j] => do
+    let (k, s) ← get st i; let n ← n.toNat?; let (_, t) ← get st j
+    match insert h s n t with
+    | .ok (h', some s') => some ({ heap := h', pool := st.pool.set! k (some s') }, "some")
+    | .ok (h', none) => some ({ heap := h', pool := st.pool.set! k none }, "none")
+    | _ => some (st, "panic")
+  | ["eq", i, j] => do
+    let (_, s) ← get st i; let (_, t) ← get st j
+    match (h.view s).eqWith (h.view t) with
+    | .ok b => some (st, if b then "T" else "F")
+    | _ => some (st, "panic")
+  | ["uint", i, o] => do
+    let (_, s) ← get st i; let o ← parseOrder o
+    match (h.view s).toUint o with
+    | .ok v => some (st, toString v)
+    | _ => some (st, "panic")
+  | ["int", i, o] => do
+    let (_, s) ← get st i; let o ← parseOrder o
+    match (h.view s).toInt o with
+    | .ok v => some (st, toString v)
+    | _ => some (st, "panic")
+  | ["hex", i] => do
+    let (_, s) ← get st i
+    match (h.view s).toHexString with
+    | .ok cs => some (st, "x" ++ String.ofList cs)
+    | _ => some (st, "panic")
+  | ["bytes", i] => do
+    let (_, s) ← get st i
+    (optBytes (h.view s).toBytes).map fun r => (st, r)
+  | ["bytestr", i] => do
+    let (_, s) ← get st i
+    (optBytes (h.view s).bytestr).map fun r => (st, r)
+  | ["slice", i] => do
+    let (_, s) ← get st i
+    (optBytes (h.view s).slice).map fun r => (st, r)
+  | ["pad", i] => do
+    let (_, s) ← get st i
+    match (h.view s).toBytesWithPadding with
+    | .ok bs => some (st, hexBytes bs)
+    | _ => some (st, "panic")
+  | ["iter8", i] => do
+    let (_, s) ← get st i
+    match (h.view s).iter8 with
+    | .ok items => some (st, "i" ++ ",".intercalate (items.map fun (v, n) => s!"{v}:{n}"))
+    | _ => some (st, "panic")
+  | ["bits", i] => do
+    let (_, s) ← get st i
+    match (h.view s).bitsIter with
+    | .ok bs => some (st, "b" ++ String.ofList (bs.map fun b => if b == 1 then '1' else if b == 0 then '0' else '?'))
+    | _ => some (st, "panic")
+  | ["f32", i, o] => do
+    let (_, s) ← get st i; let o ← parseOrder o
+    match (h.view s).toF32 o with
+    | .ok v => some (st, String.ofList (Codec.hexOfNat 8 v))
+    | _ => some (st, "panic")
+  | ["f64", i, o] => do
+    let (_, s) ← get st i; let o ← parseOrder o
+    match (h.view s).toF64 o with
+    | .ok v => some (st, String.ofList (Codec.hexOfNat 16 v))
+    | _ => some (st, "panic")
+  | ["flags", i] => do
+    let (_, s) ← get st i
+    some (st, if (h.view s).isBytestr then "bytestr" else "bits")
+  | _ => some (st, "bad-op")
+
+def splitOps (toks : List String) : List (List String) :=
+  let rec go : List String → List String → List (List String) → List (List String)
+    | [], cur, acc => (cur.reverse :: acc).reverse
+    | ";" :: r, cur, acc => go r [] (cur.reverse :: acc)
+    | t :: r, cur, acc => go r (t :: cur) acc
+  go toks [] []
+
+def run (ops : List (List String)) : String :=
+  let rec go : List (List String) → St → List String → List String
+    | [], _, acc => acc.reverse
+    | op :: r, st, acc =>
+      match step st op with
+      | none => ("bad-args" :: acc).reverse
+      | some (st', res) =>
+        if res == "panic" then ("panic" :: acc).reverse
+        else go r st' (s!"{res}|{showState st'}" :: acc)
+  " ; ".intercalate (go ops { heap := Heap.empty, pool := #[] } [])
+
+def handle (args : List String) : String := run (splitOps args)
 
 end Xeh.Driver.C04
